@@ -26,6 +26,13 @@ import H4.Gen.Gr
       `GRIget_image_list` asks `GRIisspecial_type(...) == SPECIAL_COMP` – so every partial write is a read-modify-write of
       the whole element, flushed from offset 0 by `HBPcloseAID`; the model's element is that buffer.
 
+    * **Several RI ids on one image** (`Book`, `Img`): `GRcreate` and every `GRselect` register an atom for the SAME
+      `ri_info_t`; `access` counts them, `GRendaccess` closes the element's access id only when the last one goes. The C
+      decides "the image has data" (`new_image` / `image_data`) from `img_tag/img_ref`, `data_modified` and `Hlength`;
+      for a compressed image `Hlength` stays 0 until the access id is closed, so `data_modified` carries the decision
+      while other ids keep the access id open. `Img.write`/`Img.read` take that decision from the bookkeeping, NOT from
+      the logical element; `Props/C09Region.lean` proves the two always agree (`gr_ids_are_views`).
+
     `Variant` selects the source revision that is modelled.  `Variant.current` is the code as it is now
     (with `fix:` commits 9076f25 – selections outside the image are refused –, 80405e4 – a strided first
     write fills exactly the unwritten lines –, 50122da – images loaded from a file keep `fill_img` – and
@@ -256,6 +263,123 @@ def grRead {α} (v : Variant) (W H : Nat) (d : α) (r : Req) (st : Store α) : O
     | some e =>
       if (ioOffsets W H r).all (· < e.length) then some (.inr (readAt d e (ioOffsets W H r))) else none
 
+/-! ## several RI ids on one image: the bookkeeping behind "the image has data" -/
+
+/-- the `ri_info_t` fields behind `new_image` (`GRwriteimage`) / `image_data` (`GRreadimage`). All RI ids of an image are
+    atoms (`HAregister_atom(RIIDGROUP, ri_ptr)`) for the same `ri_info_t`: ids are views of ONE image state. -/
+structure Book where
+  /-- the open RI ids (handle names are chosen by the caller of the model). `ri_ptr->access` is their number: it is
+      incremented exactly where an atom is registered (`GRcreate`, `GRselect`) and decremented where one is removed
+      (`GRendaccess`) -/
+  ids : List Nat := []
+  /-- `img_tag`/`img_ref` assigned (`GRIgetaid`, `GRsetchunk`, or loaded from the RIG) -/
+  tagSet : Bool := false
+  /-- `img_aid != 0` -/
+  aid : Bool := false
+  /-- `acc_perm & DFACC_WRITE` of the open access id -/
+  aidW : Bool := false
+  /-- compressed element (`GRsetcompress`, `use_buf_drvr`; or loaded with `GRIisspecial_type == SPECIAL_COMP`): what is
+      written stays in the coder's / `HBconvert` buffer – and the length in the compression header stays what it was –
+      until the access id is closed (`HCPendaccess`/`HBPcloseAID`) -/
+  buffered : Bool := false
+  /-- data written through the open access id of a buffered element, not yet flushed -/
+  pending : Bool := false
+  /-- `Hlength(file, img_tag, img_ref) > 0` -/
+  hlen : Bool := false
+  /-- `ri_ptr->data_modified`: set by `GRwriteimage`, never cleared while the `ri_info_t` lives (`GRend` clears it just
+      before freeing the record) -/
+  dataModified : Bool := false
+deriving Repr, DecidableEq
+
+/-- `ri_ptr->access` -/
+def Book.access (b : Book) : Nat := b.ids.length
+
+/-- the C's `!new_image` (`GRwriteimage`) = `image_data` (`GRreadimage`):
+    `!(img_tag == DFTAG_NULL || img_ref == DFREF_WILDCARD) && (data_modified == TRUE || Hlength(...) > 0)` -/
+def Book.hasData (b : Book) : Bool := b.tagSet && (b.dataModified || b.hlen)
+
+/-- `Hendaccess(ri_ptr->img_aid); ri_ptr->img_aid = 0`: a buffered element is flushed, its length becomes visible -/
+def Book.closeAid (b : Book) : Book :=
+  { b with aid := false, aidW := false, hlen := b.hlen || b.pending, pending := false }
+
+/-- `GRIgetaid(ri_ptr, acc_perm)`: assigns tag/ref; "Close the old AID (which only had read permission)" when write
+    access is wanted; opens the access id when there is none (`ri_ptr->comp_img` is only set inside `GRsetcompress`) -/
+def Book.getaid (w : Bool) (b : Book) : Book :=
+  let b1 := { b with tagSet := true }
+  let b2 := if b1.aid && w && !b1.aidW then b1.closeAid else b1
+  if b2.aid then b2 else { b2 with aid := true, aidW := w }
+
+/-- end of a successful `GRwriteimage`: `data_modified = TRUE`; the bytes are in the file (plain, chunked: `Hlength > 0`)
+    or in the buffer of the compressed element -/
+def Book.wrote (b : Book) : Book :=
+  { b with dataModified := true, pending := b.pending || b.buffered, hlen := b.hlen || !b.buffered }
+
+/-- `GRselect(grid, index)` into handle `k`: `ri_ptr->access++; HAregister_atom`. `none`: the handle name is in use. -/
+def Book.select (k : Nat) (b : Book) : Option Book :=
+  if b.ids.contains k then none else some { b with ids := k :: b.ids }
+
+/-- `GRendaccess(riid)`: `HAatom_object == NULL` ⇒ `DFE_RINOTFOUND` for an id that is not open; `access--`;
+    `if (!(access > 0) && img_aid != 0) { Hendaccess(img_aid); img_aid = 0; }`; the atom is removed.
+    `data_modified` is NOT touched. -/
+def Book.endaccess (k : Nat) (b : Book) : Option Book :=
+  if !b.ids.contains k then none
+  else
+    let b1 := { b with ids := b.ids.erase k }
+    some (if b1.ids.isEmpty && b1.aid then b1.closeAid else b1)
+
+/-- `GRsetcompress`: `use_buf_drvr` already set ⇒ `DFE_CANTMOD`; else `comp_img = TRUE; use_buf_drvr = 1;
+    GRIgetaid(ri_ptr, DFACC_WRITE)` – with `comp_img` set that closes the access id and creates the compressed
+    element (`HCcreate`, length 0 in its header until data are flushed) -/
+def Book.setcompress (b : Book) : Option Book :=
+  if b.buffered then none
+  else
+    let b1 := { b.closeAid with buffered := true, tagSet := true }
+    some { b1 with aid := true, aidW := true }
+
+/-- `GRsetchunk`: assigns tag/ref, `HMCcreate` (the chunked element exists: `Hlength > 0`), closes the old access id and
+    keeps the new one -/
+def Book.setchunk (b : Book) : Book :=
+  { b.closeAid with tagSet := true, hlen := true, aid := true, aidW := true }
+
+/-- every id released (the last `GRendaccess` closes the access id), `GRend`, `Hclose`; `Hopen`, `GRstart`:
+    a fresh `ri_info_t` built by `GRIget_image_list` – tag/ref from the RIG, `data_modified = FALSE`, no id, no access id -/
+def Book.reopened (b : Book) : Book :=
+  { b.closeAid with ids := [], dataModified := false }
+
+/-- one image, pixel layer: the logical element and the bookkeeping -/
+structure Img (α : Type) where
+  st : Store α := {}
+  bk : Book := {}
+deriving Repr
+
+/-- the element as the library sees it: when the bookkeeping says "no data" the calls behave as for an image without
+    data whatever the element holds (fill values are returned; a partial write streams a new fill-padded image).
+    `gr_ids_are_views` shows the bookkeeping and the element never disagree, so this is the identity on every reachable
+    state; on unreachable ones the exact bytes the C would produce depend on the position of the access id and are
+    not modelled. -/
+def Img.view {α} (im : Img α) : Store α := if im.bk.hasData then im.st else { im.st with elem := none }
+
+/-- `GRwriteimage` through id `k`. `false` = `FAIL`. Order as in the C: id lookup, argument checks, `new_image` from the
+    bookkeeping, `GRIgetaid(DFACC_WRITE)` (its effects stay when the transfer fails), the transfer, `data_modified`. -/
+def Img.write {α} (v : Variant) (W H : Nat) (f : α) (k : Nat) (r : Req) (vals : List α) (im : Img α) : Img α × Bool :=
+  if !im.bk.ids.contains k then (im, false)
+  else if !r.sane || (v.rangeCheck && !r.inImage W H) then (im, false)
+  else
+    match grWrite v W H f r vals im.view with
+    | none => ({ im with bk := im.bk.getaid true }, false)
+    | some st' => ({ st := st', bk := (im.bk.getaid true).wrote }, true)
+
+/-- `GRreadimage` through id `k`. `none` = `FAIL`. `image_data` from the bookkeeping; `GRIgetaid(DFACC_READ)` only when
+    there is something to read. -/
+def Img.read {α} (v : Variant) (W H : Nat) (d : α) (k : Nat) (r : Req) (im : Img α) : Img α × Option (Nat ⊕ List α) :=
+  if !im.bk.ids.contains k then (im, none)
+  else if !r.sane || (v.rangeCheck && !r.inImage W H) then (im, none)
+  else ({ im with bk := if im.bk.hasData then im.bk.getaid false else im.bk }, grRead v W H d r im.view)
+
+/-- `GRend … GRstart` at the pixel layer (`fill_img` of a loaded image: see `reopen`) -/
+def Img.reopen {α} (v : Variant) (im : Img α) : Img α :=
+  { st := { im.st with fillImg := v.lateFill }, bk := im.bk.reopened }
+
 /-! ## byte layer -/
 
 /-- split a byte string into `n`-byte pieces (`fuel` ≥ number of pieces) -/
@@ -286,6 +410,8 @@ structure RI where
   /-- value of the `FILL_ATTR` attribute, memory format, `ncomp·csz` bytes -/
   fill : Option (List Byte) := none
   st : Store (List Byte) := {}
+  /-- ids / access id / `data_modified` bookkeeping of the image (`Book`) -/
+  bk : Book := {}
   /-- palette: `lut_il` requested with `GRreqlutil`, and the `DFTAG_LUT` element -/
   lutIl : Il := .pixel
   lut : Option (List Byte) := none
@@ -321,6 +447,24 @@ def GRreadimage (v : Variant) (ri : RI) (r : Req) : Option (List Byte) :=
   (readPixelBuf v ri r).map fun buf =>
     if ri.imIl ≠ .pixel then convert .pixel ri.imIl r.cx r.cy ri.ncomp ri.csz buf (List.replicate buf.length 0) else buf
 
+/-- the image record with the element as the library sees it (`Img.view`) -/
+def RI.view (ri : RI) : RI := { ri with st := (Img.mk ri.st ri.bk).view }
+
+/-- `GRwriteimage(riid_k, …)`: byte layer of `Img.write` (same order of checks and effects) -/
+def GRwriteimageId (v : Variant) (ri : RI) (k : Nat) (r : Req) (data : List Byte) : RI × Bool :=
+  if !ri.bk.ids.contains k then (ri, false)
+  else if !r.sane || (v.rangeCheck && !r.inImage ri.W ri.H) then (ri, false)
+  else
+    match GRwriteimage v ri.view r data with
+    | none => ({ ri with bk := ri.bk.getaid true }, false)
+    | some ri' => ({ ri' with bk := (ri.bk.getaid true).wrote }, true)
+
+/-- `GRreadimage(riid_k, …)`: byte layer of `Img.read` -/
+def GRreadimageId (v : Variant) (ri : RI) (k : Nat) (r : Req) : RI × Option (List Byte) :=
+  if !ri.bk.ids.contains k then (ri, none)
+  else if !r.sane || (v.rangeCheck && !r.inImage ri.W ri.H) then (ri, none)
+  else ({ ri with bk := if ri.bk.hasData then ri.bk.getaid false else ri.bk }, GRreadimage v ri.view r)
+
 /-- `GRreqimageil(riid, il)` -/
 def GRreqimageil (ri : RI) (il : Il) : RI := { ri with imIl := il }
 
@@ -353,19 +497,20 @@ def ntLoad (code cls : Nat) : Nat :=
     * `img_dim.il` comes back as PIXEL (`GRIupdatemeta`: "all data is written out in 'pixel' interlace, so force the
       interlace stored on disk to match"): the interlace given to `GRcreate` describes that session's write buffers;
     * the number type goes through the NT record (`ntRecord`, `ntLoad`);
-    * `fill_img` of a loaded image is `lateFill`; the palette's number type is reported as `DFNT_UCHAR8`. -/
+    * `fill_img` of a loaded image is `lateFill`; the palette's number type is reported as `DFNT_UCHAR8`;
+    * no RI id survives, `data_modified` starts FALSE again (`Book.reopened`). -/
 def reopen (v : Variant) (ri : RI) : RI :=
   let rec_ := ntRecord v ri.nt
   let nt' := ntLoad rec_.1 rec_.2
   let (csz', swap') := (H4.Conv.lookup nt').getD (ri.csz, ri.swap)
   { ri with nt := nt', csz := csz', swap := swap', il := .pixel, imIl := .pixel, lutIl := .pixel,
-            st := { ri.st with fillImg := v.lateFill },
+            st := { ri.st with fillImg := v.lateFill }, bk := ri.bk.reopened,
             lutNt := if ri.lut.isSome then H4.Gen.Hdf.DFNT_UCHAR8 else ri.lutNt }
 
 /-- `GRsetchunk`: `HMCcreate(…, fill value = disk fill pixel, …)`: the element exists from now on
     (`Hlength > 0`) and every pixel reads as the fill pixel until written -/
 def GRsetchunk (ri : RI) : RI :=
-  { ri with st := { ri.st with elem := some (List.replicate (ri.W * ri.H) ri.fillDisk) } }
+  { ri with st := { ri.st with elem := some (List.replicate (ri.W * ri.H) ri.fillDisk) }, bk := ri.bk.setchunk }
 
 /-! ## palettes -/
 
